@@ -520,6 +520,23 @@ pub fn with_record<T>(ctx: &RecCtx, pieces: &[String], f: impl FnOnce(&Record) -
         .build())
 }
 
+/// A message whose `Display` implementation writes part of its text and then panics (a bug in somebody's
+/// `Display`; callers that catch the panic go on logging on the same thread).
+pub struct PanickingMsg;
+
+impl std::fmt::Display for PanickingMsg {
+    fn fmt(&self, f: &mut std::fmt::Formatter<'_>) -> std::fmt::Result {
+        f.write_str("HALF-OF-A-MESSAGE-THAT-MUST-NOT-SHOW-UP-LATER")?;
+        panic!("l4v: scripted panic inside Display");
+    }
+}
+
+/// Encodes one record whose message panics half-way, swallowing the panic (quietly).
+pub fn encode_a_record_that_panics(enc: &dyn encode::Encode, ctx: &RecCtx) {
+    let mut w = CapW::new();
+    let _ = crate::trap::catch(|| with_record_display(ctx, &PanickingMsg, |rec| enc.encode(&mut w, rec)));
+}
+
 /// A message whose `Display` implementation itself encodes another record through the same encoder (into
 /// its own buffer) before it writes its text - what happens when formatting an argument logs something.
 pub struct NestingMsg<'a> {
